@@ -162,6 +162,9 @@ class Repo:
         for n in list(self.classes):
             if "." not in n:
                 lin(n)
+        for n, ci in self.classes.items():
+            if "." in n and not ci.mro:
+                ci.mro = [n] + [b for b in ci.bases if b in self.classes]
 
     # ------------------------------------------------------------------ queries
     def func(self, key: str) -> Optional[FuncInfo]:
